@@ -437,6 +437,11 @@ func c02Judge(v *c02Vec, src string, a c02Ans) (bool, string, string) {
 func c02AfterFailedOpen() *Result {
 	done := make(chan string, 1)
 	go func() {
+		defer func() {
+			if r := recover(); r != nil {
+				done <- fmt.Sprintf("PANIC: GetTemplate panicked instead of returning the loader's error: %v", r)
+			}
+		}()
 		l := jet.NewInMemLoader()
 		l.Set("/a.jet", "a")
 		set := jet.NewSet(&c02VanishingLoader{InMemLoader: l, vanish: "/gone.jet"})
@@ -454,6 +459,9 @@ func c02AfterFailedOpen() *Result {
 	}()
 	select {
 	case why := <-done:
+		if strings.HasPrefix(why, "PANIC") {
+			return &Result{Sig: map[string]interface{}{"kind": "crash", "cfg": "A", "family": "history", "ctx": "", "lexs": "", "glue": false, "verdict": ""}, Key: "history", Detail: why}
+		}
 		if why != "" {
 			return &Result{Sig: map[string]interface{}{"kind": "after-failed-open", "cfg": "A", "family": "history", "ctx": "", "lexs": "", "glue": false, "verdict": ""}, Key: "history", Detail: why}
 		}
@@ -473,6 +481,7 @@ type c02VanishingLoader struct {
 func (l *c02VanishingLoader) Open(p string) (io.ReadCloser, error) {
 	if p == l.vanish {
 		l.InMemLoader.Delete(p)
+		return nil, fmt.Errorf("open %s: no such file", p) // the usual (nil, err) of a loader
 	}
 	return l.InMemLoader.Open(p)
 }
